@@ -18,6 +18,7 @@ type SGenCfg struct {
 	AllowDup   bool // C18: duplicate adds, unknown addresses, adds beyond RF, second WO
 	RestFail   bool // per-node REST failures for management ops
 	PingsPct   int  // percent of programs that run with monitor pings on
+	NoSpare    bool // exactly RF nodes (every node is one of the configured replicas)
 }
 
 func genOutcomes(t *rapid.T, nodes int, cfg SGenCfg, slowLeft *int) []Outcome {
@@ -65,7 +66,7 @@ func genOutcomes(t *rapid.T, nodes int, cfg SGenCfg, slowLeft *int) []Outcome {
 func GenSProgram(t *rapid.T, cfg SGenCfg) SProgram {
 	rf := rapid.SampledFrom(cfg.RFs).Draw(t, "rf")
 	nodes := rf
-	if cfg.AllowDup || rapid.IntRange(0, 3).Draw(t, "spare") == 0 {
+	if !cfg.NoSpare && (cfg.AllowDup || rapid.IntRange(0, 3).Draw(t, "spare") == 0) {
 		nodes = rf + 1
 	}
 	blocks := cfg.Blocks
